@@ -45,7 +45,7 @@ def expressions(tier):
 
 def members_only(ast, tier):
     mem = refmodel.members(ast, limit=8)
-    big = [next(values.inflate(m, 40), None) for m in mem[:2]]        # the same members with about 40 elements
+    big = [next(values.inflate(m, 70), None) for m in mem[:2]]        # the same members with about 40 elements
     return mem + [b for b in big if b is not None]
 
 
